@@ -140,7 +140,6 @@ func (st *State) addPC(c *Term, fromFork bool) {
 		return
 	}
 	st.pc = append(st.pc, c)
-	st.solver.Assert(c)
 	st.refine(c, true)
 }
 
@@ -151,12 +150,186 @@ func (st *State) evalModel(c *Term) int {
 	return int(st.tp.Eval(c, st.model))
 }
 
+// relevant returns the conjuncts of the path condition that (transitively) share variables with the given terms.
+func (st *State) relevant(extra []*Term) []*Term {
+	if st.job.noSlicing {
+		return st.pc
+	}
+	syms := map[int]struct{}{}
+	for _, e := range extra {
+		for _, s := range e.syms {
+			syms[s] = struct{}{}
+		}
+	}
+	used := make([]bool, len(st.pc))
+	var out []*Term
+	for changed := true; changed; {
+		changed = false
+		for i, c := range st.pc {
+			if used[i] {
+				continue
+			}
+			hit := false
+			for _, s := range c.syms {
+				if _, ok := syms[s]; ok {
+					hit = true
+					break
+				}
+			}
+			if hit {
+				used[i] = true
+				out = append(out, c)
+				for _, s := range c.syms {
+					if _, ok := syms[s]; !ok {
+						syms[s] = struct{}{}
+						changed = true
+					}
+				}
+			}
+		}
+	}
+	return out
+}
+
+// solve checks satisfiability of (relevant slice of pc) ∧ extra. On sat with wantModel, the returned model is a
+// model of the whole path condition: the slice's variables take their new values, all others keep st.model's.
+func (st *State) solve(extra []*Term, wantModel bool) (SatResult, Model) {
+	t0 := time.Now()
+	defer func() { st.job.solveTime += time.Since(t0) }()
+	rel := st.relevant(extra)
+	if wantModel && st.model == nil {
+		rel = st.pc
+	}
+	if r, m, ok := st.bruteForce(rel, extra, wantModel); ok {
+		st.job.brute++
+		return r, m
+	}
+	sv := st.solver
+	for _, c := range rel {
+		sv.define(c)
+	}
+	for _, e := range extra {
+		sv.define(e)
+	}
+	sv.Push()
+	for _, c := range rel {
+		sv.AssertDefined(c)
+	}
+	for _, e := range extra {
+		sv.AssertDefined(e)
+	}
+	r := sv.Check()
+	var m Model
+	if r == Sat && wantModel {
+		// variables of the slice
+		ids := map[int]struct{}{}
+		for _, c := range rel {
+			for _, s := range c.syms {
+				ids[s] = struct{}{}
+			}
+		}
+		for _, e := range extra {
+			for _, s := range e.syms {
+				ids[s] = struct{}{}
+			}
+		}
+		var vs []*Term
+		for _, v := range st.vars {
+			if _, ok := ids[v.id]; ok {
+				vs = append(vs, v)
+			}
+		}
+		part := sv.GetModel(vs)
+		m = Model{}
+		for k, v := range st.model {
+			m[k] = v
+		}
+		for _, v := range vs {
+			m[v.id] = part[v.id]
+		}
+	}
+	sv.Pop()
+	st.job.noteQuery(r)
+	if sv.dead {
+		panic(fmt.Sprintf("solver died: %s", sv.lastErr))
+	}
+	return r, m
+}
+
+// bruteForce decides a slice whose variables have at most 16 bits in total by evaluation.
+func (st *State) bruteForce(rel, extra []*Term, wantModel bool) (SatResult, Model, bool) {
+	ids := map[int]struct{}{}
+	for _, c := range rel {
+		for _, s := range c.syms {
+			ids[s] = struct{}{}
+		}
+	}
+	for _, e := range extra {
+		for _, s := range e.syms {
+			ids[s] = struct{}{}
+		}
+	}
+	if len(ids) > 4 {
+		return 0, nil, false
+	}
+	var vs []*Term
+	bits := 0
+	for _, v := range st.vars {
+		if _, ok := ids[v.id]; ok {
+			if v.sort.K == KFP {
+				return 0, nil, false
+			}
+			w := v.sort.W
+			if v.sort.K == KBool {
+				w = 1
+			}
+			bits += w
+			vs = append(vs, v)
+		}
+	}
+	if bits > 16 || len(vs) != len(ids) {
+		return 0, nil, false
+	}
+	m := Model{}
+	for k, v := range st.model {
+		m[k] = v
+	}
+	all := append(append([]*Term{}, rel...), extra...)
+	n := uint64(1) << uint(bits)
+	for a := uint64(0); a < n; a++ {
+		x := a
+		for _, v := range vs {
+			w := v.sort.W
+			if v.sort.K == KBool {
+				w = 1
+			}
+			m[v.id] = x & mask(w)
+			x >>= uint(w)
+		}
+		ctx := &evalCtx{m: m, cache: map[int]uint64{}}
+		ok := true
+		for _, c := range all {
+			if ctx.eval(c) == 0 {
+				ok = false
+				break
+			}
+		}
+		if ok {
+			if !wantModel {
+				return Sat, nil, true
+			}
+			return Sat, m, true
+		}
+	}
+	return Unsat, nil, true
+}
+
 // query asks whether pc ∧ c is satisfiable. Unknown counts as feasible.
 func (st *State) query(c *Term) bool {
-	r, m := st.solver.CheckWith(c, st.vars)
-	st.job.noteQuery(r)
-	if st.solver.dead {
-		panic(fmt.Sprintf("solver died: %s", st.solver.lastErr))
+	t0 := time.Now()
+	r, m := st.solve([]*Term{c}, true)
+	if d := time.Since(t0); d > 2*time.Second && st.eng.verbose > 0 {
+		fmt.Printf("[slow query %.1fs %v] %s\n   cond: %s\n", d.Seconds(), r, st.where(), printTermShort(c, 8))
 	}
 	switch r {
 	case Unsat:
@@ -170,6 +343,9 @@ func (st *State) query(c *Term) bool {
 }
 
 func (st *State) feasible2(c *Term) (ft, ff bool) {
+	for k := range st.altModels {
+		delete(st.altModels, k)
+	}
 	if d, ok := st.quickDecide(c); ok {
 		st.job.quick++
 		return d, !d
@@ -189,11 +365,10 @@ func (st *State) feasible2(c *Term) (ft, ff bool) {
 // enumerate lists feasible values of t under the current path condition.
 func (st *State) enumerate(t *Term, max int) ([]uint64, bool) {
 	var vals []uint64
-	st.solver.Push()
-	defer st.solver.Pop()
+	var block []*Term
 	for len(vals) <= max {
-		r := st.solver.Check()
-		st.job.noteQuery(r)
+		extra := block
+		r, m := st.solveWithSyms(extra, t)
 		if r == Unsat {
 			sort.Slice(vals, func(i, j int) bool { return vals[i] < vals[j] })
 			return vals, true
@@ -201,12 +376,19 @@ func (st *State) enumerate(t *Term, max int) ([]uint64, bool) {
 		if r == Unknown {
 			return vals, false
 		}
-		m := st.solver.GetModel(st.vars)
 		v := st.tp.Eval(t, m)
 		vals = append(vals, v)
-		st.solver.Assert(st.tp.Not(st.tp.Eq(t, st.tp.BVConst(t.sort.W, v))))
+		block = append(block, st.tp.Not(st.tp.Eq(t, st.tp.BVConst(t.sort.W, v))))
 	}
 	return vals, false
+}
+
+// solveWithSyms is solve() where the slice is additionally seeded with the variables of t.
+func (st *State) solveWithSyms(extra []*Term, t *Term) (SatResult, Model) {
+	// a tautology mentioning t pulls t's cluster into the slice
+	taut := st.tp.mk(OpOr, BoolSort, []*Term{st.tp.Eq(t, st.tp.BVConst(t.sort.W, 0)), st.tp.Not(st.tp.Eq(t, st.tp.BVConst(t.sort.W, 0)))}, 0, "", 0, 0)
+	ex := append([]*Term{taut}, extra...)
+	return st.solve(ex, true)
 }
 
 func (st *State) varsOf(t *Term) []*Term {
@@ -324,7 +506,11 @@ func (st *State) explore() {
 			st.pendingFork = nil
 			st.job.forks++
 			if st.job.forkSites != nil {
-				st.job.forkSites[fmt.Sprintf("%d-way @ %s", len(alts), st.whereShort())]++
+				key := fmt.Sprintf("%d-way @ %s", len(alts), st.whereShort())
+				st.job.forkSites[key]++
+				if st.eng.verbose > 2 && st.job.forkSites[key] < 3 {
+					fmt.Printf("[fork] %s\n   stack: %s\n", key, st.where())
+				}
 			}
 			snap := st.snapshot()
 			for i, alt := range alts {
@@ -334,7 +520,6 @@ func (st *State) explore() {
 				if i > 0 {
 					st.restore(snap)
 				}
-				st.solver.Push()
 				if m, ok := st.altModels[alt.cond.id]; ok {
 					st.model = m
 				} else if st.model != nil && !alt.cond.IsConst() && st.tp.Eval(alt.cond, st.model) == 0 {
@@ -347,7 +532,6 @@ func (st *State) explore() {
 				st.depth++
 				st.explore()
 				st.depth--
-				st.solver.Pop()
 			}
 			st.restore(snap)
 			return
@@ -393,6 +577,9 @@ type Job struct {
 	reach           map[string]*DrawSet
 	reachCount      map[string]int
 	forkSites       map[string]int
+	noSlicing       bool
+	brute           int
+	solveTime       time.Duration
 	inconclusive    []string
 	stopped         bool
 	funcs           map[string]int
@@ -485,13 +672,7 @@ func (st *State) recordViolation(label, kind, where string) {
 	m := st.model
 	if m == nil {
 		// need a model of the current pc
-		st.solver.Push()
-		r := st.solver.Check()
-		j.noteQuery(r)
-		if r == Sat {
-			m = st.solver.GetModel(st.vars)
-		}
-		st.solver.Pop()
+		_, m = st.solve(nil, true)
 	}
 	if m == nil {
 		m = Model{}
